@@ -95,6 +95,30 @@ impl TypeCollector {
             .collect()
     }
 
+    /// Add the types used as event payloads, together with the types those depend on
+    pub fn add_event_types(
+        &self,
+        events: &[EventInfo],
+        all_structs: &HashMap<String, StructInfo>,
+        used_structs: &mut HashMap<String, StructInfo>,
+    ) {
+        let mut event_types = std::collections::HashSet::new();
+        for event in events {
+            Self::collect_referenced_types_from_structure(
+                &event.payload_type_structure,
+                &mut event_types,
+            );
+        }
+        let initial_types = event_types.clone();
+        self.discover_nested_dependencies(&initial_types, all_structs, &mut event_types);
+
+        for type_name in event_types {
+            if let Some(struct_info) = all_structs.get(&type_name) {
+                used_structs.insert(type_name, struct_info.clone());
+            }
+        }
+    }
+
     /// Recursively discover nested dependencies
     fn discover_nested_dependencies(
         &self,
